@@ -48,8 +48,10 @@ sim::Json generate(const std::string& tier, uint64_t seed, uint64_t index) {
     sim::Json j = sim::Json::object();
     j.set("max", o.maximize);
     sim::Json lin = sim::Json::array();
-    for (auto& t : o.lin) { sim::Json p = sim::Json::array(); p.push(t.var); p.push(t.coef); lin.push(p); }
+    if (!o.cancels) for (auto& t : o.lin) { sim::Json p = sim::Json::array(); p.push(t.var); p.push(t.coef); lin.push(p); }
     j.set("lin", lin);
+    if (o.lin.empty() && !o.has_nl && o.constant == 0) j.set("empty", true);
+    if (o.cancels) j.set("cancels", true);
     sim::Json tags = sim::Json::array();
     for (double t : o.tags) tags.push(t);
     j.set("tags", tags);
